@@ -69,11 +69,19 @@ func runC01(e *Engine, r *Report) {
 				r.check(o && notFromErrEdge(e, he, upd, s), "MPT-apply-then-complete", "apply callback after a successful update in handleEntry", e.ipos(s),
 					"Completed is reported only after the local state machine applied the entry", "the apply callback can run without (or after a failed) state machine update")
 				// ignored entries are not reported
+				ign := func(v ssa.Value) bool {
+					ex, ok := v.(*ssa.Extract)
+					return ok && ex.Index == 1 && e.callV(upd)(ex)
+				}
+				if len(args) >= 4 {
+					// by role: the very value handed on as the `ignored` argument (a tuple component or a field of a result struct)
+					ia := args[3]
+					ign = func(v ssa.Value) bool {
+						return (v == ia || sameExprV(ia)(v)) && e.dependsOn(v, e.callV(upd), 0)
+					}
+				}
 				r.guard("MPT-apply-then-complete", "apply callback in handleEntry", s.(ssa.Instruction),
-					reqBool("not ignored (already responded)", func(v ssa.Value) bool {
-						ex, ok := v.(*ssa.Extract)
-						return ok && ex.Index == 1 && e.callV(upd)(ex)
-					}, false))
+					reqBool("not ignored (already responded)", ign, false))
 			}
 		}
 	}
